@@ -33,6 +33,11 @@ def run(c):
     res = run_cases(c, cases, 'sem', vflags=vflags)
     c.assumptions += ['the engines are compared through the recording monitor, logger, step() results and getConfiguration() (vd_run.cpp)',
                       'Lua/Promela/null datamodel runs of the same chart share one rendering of its expressions']
+    # hypotheses of fast_large_run_equiv (eq_chartb, eq_guard_run along the large model's run) on every case: where they
+    # hold the theorem says the two engine models produce the same run, so a difference between the engines there
+    # cannot be one of the recorded difference classes
+    reach = theorem_reach(c, cases, vflags, want=('eqguard',))
+    guarded = [all(r.get('eq', (False,))) for r in reach]
     diffs = {}
     mdis = {}
     nontriv = set()
@@ -55,6 +60,8 @@ def run(c):
             # a difference is a *known* one only if each engine behaves exactly as its Coq model
             if not (okl and okf):
                 cls += '+model-disagrees'
+            if guarded[i]:
+                cls += '+inside-fast_large_run_equiv'
             diffs.setdefault(cls, []).append(i)
     # the W3C IRP corpus, both engines (thorough: all; quick: a sample)
     irp = irp_compare(c)
@@ -64,6 +71,8 @@ def run(c):
                      'results, configuration after every step, data values at the end), plus the W3C IRP documents for lua/promela/null run with both '
                      'engines; non-trivial = distinct (chart, history) with parallel or history states that takes at least one non-initial microstep')
     c.cov['engine_differences'] = {k: len(v) for k, v in diffs.items()}
+    c.cov['fast_large_run_equiv_reach'] = {'cases': len(cases), 'eq_chartb': sum(1 for r in reach if r.get('eq', (False,))[0]),
+                                           'eq_chartb+eq_guard_run (theorem applies)': sum(1 for g in guarded if g)}
     c.cov['model_disagreements'] = {k: len(v) for k, v in mdis.items()}
     c.cov['irp'] = irp
     c.cov['samples'] = [{'scxml': G.to_scxml(cases[i]['tree'], cases[i]['dm'])[:400], 'events': [e.decode() for e in cases[i]['events']], 'large': res['large'][i][:300], 'fast': res['fast'][i][:300]}
